@@ -20,6 +20,10 @@ CLAIMS = {
    text="Lean 4 theorems over the Sampling layer (model of build_prove_request_content + sample_blocks with the f64-derived numerators as universally quantified inputs): every built request is well-formed (C15.request_wf), building never aborts (C15.no_abort), sample-count branch structure (C15.count_structure). Tied to /repo by running the real LightClientProtocol::build_prove_request_content(_from_genesis) on generated stores/peer states; the implementation's random draws are validated by the model (choice-as-input). The FlyClient bound itself (a statement about f64 code) is validated, not proved: exact interval-arithmetic recomputation of ceil(lambda/log_{1/2}(1-1/k)) over an (l,n) table and all generated cases — partial by construction.",
    note="Trusted: Lean kernel; standard axioms; harness (generators, float replication of estimate_k/powf for the boundary numerator, interval log2). Not proved: f64 sample-count estimate (validated). Known finding: degenerate range (sample = start).",
    technique="Lean 4 proof + handler-level differential correspondence (choice-as-input) + exact-arithmetic validation of the float bound", ref="5 C15"),
+ 'C18': dict(
+   text="Lean 4 theorems over the Pool layer (model of send_transaction / verify_tx / resolve_tx with the ckb-verification and CKB-VM verdicts as universally quantified inputs, of PendingTxs and of the relay announce logic): admission is sound and complete w.r.t. the stated conditions (C18.admit_sound, admit_complete), a rejected transaction leaves all state unchanged (reject_unchanged), the pool never exceeds its limit and holds one entry per hash along every history (pool_bound), the oldest entry is evicted first (evicts_oldest), pending status iff in pool and not in store (pending_status), only pool members are announced (announced_in_pool), and no (hash, peer) pair is announced twice in any history without evictions (announce_once; witness for the second-residency known finding). Tied to /repo by histories against the real TransactionRpcImpl / PendingTxs / RelayProtocol with real always-success script execution and single-fault transaction edits.",
+   note="Trusted: Lean kernel; standard axioms; harness (transaction builder, error classification, mock network context). Verdict oracles: ckb-verification (non-contextual, since/maturity, capacity) and ckb-script/CKB-VM are not modelled — their verdicts are inputs. Relay ticks that need tentacle's p2p_control (protocol open/close) are not driven. Known finding: re-announcement after eviction + re-submission.",
+   technique="Lean 4 proof (invariants over event histories) + RPC/handler-level differential correspondence with verdict-level oracle", ref="5 C18"),
 }
 PENDING_REASON = "not yet built in this round (planned, see DESIGN.md section 5); no claim made"
 
